@@ -23,6 +23,7 @@ RULE += ' Round 6: 16-bit addressing runs on the CPU as well (the tracee maps lo
 RULE += ' Round 7: 16-bit code-segment twins: every register-only row is also decoded with attrib opmode/admode u16 from the bytes that mean the same instruction there (66 removed or added); its lifted semantics must agree, on generated states, with the 32-bit decoding that the CPU comparison covers.'
 RULE += ' Round 8: segment registers pushed without prefix, under 66 and under 67 (esp and the written window compared, not the selector); rows that carry their own bytes for a size prefix given twice (67 67, 66 66, 66 67 66) on memory, string, xlat and loop forms; the 16-bit code-segment twins now include the memory-operand rows (66 and 67 both exchanged) and compare written memory.'
 RULE += ' Round 9: bit-string forms are keyed by the class of the run-time bit offset (negative, inside the operand, beyond it).'
+RULE += " Round 9: far returns (retf, retf n, with and without 66) to the tracee's own code selector; eip, esp and cs compared."
 ASSUMPTIONS = ['the host CPU (single-stepped through Linux ptrace) is "an x86 processor"; faulting steps are excluded', 'the table of architecturally undefined results below is transcribed from the SDM',
                'vf/irsem.py gives the standard bit-vector meaning of the IR; memory is flat (segment annotations ignored)',
                'direct branches are compared by taken/not-taken (the lifter leaves the raw displacement as target; the architectural target is C17)']
@@ -222,6 +223,11 @@ def instances():
         add('scas %s, %s es:[di]' % (acc, kw), 'scas', size, 'none16addr', 'string', low=True, bases16=['edi'], idx16=[], string=True)
         add('lods %s, %s ds:[si]' % (acc, kw), 'lods', size, 'none16addr', 'string', low=True, bases16=['esi'], idx16=[], string=True)
         add('stos %s es:[di], %s' % (kw, acc), 'stos', size, 'none16addr', 'string', low=True, bases16=['edi'], idx16=[], string=True)
+    # ---- far returns to the tracee's own code segment (and, in C08's probes, to the 64-bit one): return address and selector popped
+    add('retf', 'retf', 32, 'none', branch='indirect', stack=True, farret=4)
+    add('retf 8', 'retf', 32, 'i', branch='indirect', stack=True, farret=4)
+    add('data16 retf', 'retf', 16, 'none+66', branch='indirect', stack=True, farret=2)
+    add('data16 retf 4', 'retf', 16, 'i+66', branch='indirect', stack=True, farret=2)
     # ---- a size prefix given twice is still one prefix (bytes given directly: GNU as does not emit them)
     add('dup67 mov eax, DWORD PTR [bx]', 'mov', 32, 'r,m16addr', low=True, bases16=['ebx'], idx16=[], code='67678b07')
     add('dup67 mov DWORD PTR [bx+si], ebx', 'mov', 32, 'm,r16addr', low=True, bases16=['ebx'], idx16=['esi'], code='67678918')
@@ -444,6 +450,10 @@ def make_state(inst, rng, k):
         off = regs['esp'] - hb
         v = 0x202 | O.pack_eflags(dict((f, rng.getrandbits(1)) for f in O.ARITH_FLAGS))
         hot[off:off + 4] = struct.pack('<I', v)
+    if inst['extra'].get('farret'):
+        off = regs['esp'] - hb
+        k_ = inst['extra']['farret']
+        hot[off + k_:off + k_ + 2] = struct.pack('<H', 0x23)       # the tracee's 32-bit user code selector
     if inst['form'] in ('m', 'm-sib') and inst['mn'] in ('jmp', 'call') or inst['mn'] == 'ret':
         pass   # targets are arbitrary: the step is taken, only the new eip is read
     return regs, flags, bytes(hot)
@@ -504,6 +514,10 @@ def compare_case(sh, inst, code, ins, regs, flags, hot, cpu):
             if dst_undef:
                 continue
             problems.append(('reg:' + r, '%s: lifted 0x%08x, CPU 0x%08x' % (r, got, want)))
+    if inst['extra'].get('farret') and 'cs' in cpu:
+        got = new.ids.get('cs')
+        if got is None or (got & 0xffff) != cpu['cs']:
+            problems.append(('reg:cs', 'cs: lifted %s, CPU 0x%04x' % ('unassigned' if got is None else '0x%04x' % (got & 0xffff), cpu['cs'])))
     # flags
     for f in ('cf', 'pf', 'af', 'zf', 'nf', 'of', 'df'):
         if f in und or (dst_undef and mn in ('shld', 'shrd')):
